@@ -1,7 +1,7 @@
 (** Pinned statements of the C01 property theorems: compiled on every check. *)
 From V Require Import Base.Util Gql.Ast Writer.Wop Ts.TsType Ts.TsDen
      C01.Model C01.Spec C01.Guards C01.Corr C01.Witness C01.Refuted C01.TreeDen C01.EnvDen
-     C01.PlainBase C01.PlainCore C01.PlainSchema C01.PlainFinal C01.FlatCore C01.FlatThm C01.FlatFinal C01.Properties.
+     C01.PlainBase C01.PlainCore C01.PlainSchema C01.PlainFinal C01.FlatCore C01.FlatThm C01.FlatFinal C01.DupThm C01.DupFinal C01.Properties.
 
 Check (C01_exec_in_ref_local : forall S F cf sg fuel T sels v,
   exec_b S F cf sg fuel T sels v = true -> ref_local_b S F cf fuel T sels v = true).
@@ -72,3 +72,28 @@ Check (C01_merge_free_guards_satisfiable :
   exists v, json v = true /\
             exec_b w_schema (sp_frags w_frag) 8 [(s "v", true); (s "w", false)] 8 (s "Query") (sels_of w_frag) v = true).
 Print Assumptions C01_merge_free_guards_satisfiable.
+Check (C01_emit_eq_ref_local_merge_free_ld : forall S D d T sels t v,
+  nodup_types S = true ->
+  def_target S d = Some (T, sels) ->
+  guard_merge_free_ld S D d = true ->
+  emit_type default_options S D d = Ok t ->
+  (forall tree, def_tree S D d = Ok tree -> tree_ok S tree = true) ->
+  json v = true ->
+  (In_type (schema_env S) t v <-> exists f, ref_local_b S (sp_frags D) (doc_fuel D) f T sels v = true)).
+Print Assumptions C01_emit_eq_ref_local_merge_free_ld.
+Check (C01_response_admitted_merge_free_ld : forall S D d T sels t sg f v,
+  nodup_types S = true -> def_target S d = Some (T, sels) -> guard_merge_free_ld S D d = true ->
+  emit_type default_options S D d = Ok t ->
+  (forall tree, def_tree S D d = Ok tree -> tree_ok S tree = true) ->
+  json v = true ->
+  exec_b S (sp_frags D) (doc_fuel D) sg f T sels v = true ->
+  In_type (schema_env S) t v).
+Print Assumptions C01_response_admitted_merge_free_ld.
+Check (C01_merge_free_ld_guards_satisfiable :
+  nodup_types w_schema = true /\
+  guard_merge_free_ld w_schema w_lit (first_def w_lit) = true /\
+  guard_merge_free w_schema w_lit (first_def w_lit) = false /\
+  (exists tree, def_tree w_schema w_lit (first_def w_lit) = Ok tree /\ tree_ok w_schema tree = true) /\
+  exists v, json v = true /\
+            exec_b w_schema (sp_frags w_lit) 8 [] 8 (s "Query") (sels_of w_lit) v = true).
+Print Assumptions C01_merge_free_ld_guards_satisfiable.
